@@ -507,7 +507,8 @@ def check_loops(ctx, bodies, strict, tag):
             if it and any(ty.startswith(x) for x in STD_ITER_TYPES):
                 ctx.ok(site + ('std-iter', ty[:40]))
                 continue
-            if it and (ty.startswith('<') and 'IntoIterator' in ty or ty in ('I', 'T') or ty.startswith('I') and len(ty) < 3):
+            if it and (ty.startswith('<') and 'IntoIterator' in ty or ty in ('I', 'T') or ty.startswith('I') and len(ty) < 3
+                       or ty.startswith('impl Iterator') or ty.startswith('impl std::iter::Iterator')):
                 ctx.ok(site + ('caller-iter',), sample=dict(fn=short, loop='driven by the caller-supplied iterator'))
                 continue
             if it and ty.startswith('std::iter::FromFn<{closure@'):
